@@ -112,8 +112,24 @@ def _no_write_only_attributes(ctx, rep):
     rep.floor('fields.no-write-only-attribute', n_stores, 20, 'attribute stores')
 
 
+def _alt_keypad_code_consumed(ctx, rep):
+    """The digits typed on the keypad while Alt is held are one keystroke: releasing Alt appends the character and clears the
+    accumulated digits in the same step, or every later Alt release repeats the character."""
+    ku = ctx.fn(KB + ':Keyboard._key_up')
+    blocks = [i for i in own_nodes(ku) if isinstance(i, ast.If) and 'self.keypad_ascii' in norm(i.test)]
+    ok = False
+    if len(blocks) == 1:
+        body = blocks[0].body
+        app = [k for k, st in enumerate(body) if 'self.buf.append(' in norm(st)]
+        clr = [k for k, st in enumerate(body) if isinstance(st, ast.Assign) and norm(st.targets[0]) == 'self.keypad_ascii' and ctx.fold(st.value) in (b'', u'')]
+        ok = len(app) == 1 and len(clr) == 1
+    rep.ob('altcode.consumed-once', 'Keyboard._key_up: the Alt+keypad code is appended and the accumulated digits are cleared together', ok,
+           'the digits stay accumulated: the next release of Alt inserts the same character again', ctx.where(ku))
+
+
 def check(ctx, rep):
     _empty_is_not_full(ctx, rep)
+    _alt_keypad_code_consumed(ctx, rep)
     _no_write_only_attributes(ctx, rep)
     ki = ctx.fn(KB + ':Keyboard.__init__')
     mk = [a for a in own_nodes(ki) if isinstance(a, ast.Assign) and norm(a.targets[0]) == 'self.buf']
@@ -196,6 +212,8 @@ def variants(ctx):
         return lambda tree: f(mu.find_def(tree, f_name))
 
     return [
+        mu.Variant('alt-keypad-digits-not-cleared', 'break', KB,
+                   lambda tree: mu.remove_stmt(mu.find_def(tree, 'Keyboard._key_up'), lambda st: isinstance(st, ast.Assign) and norm(st.targets[0]) == 'self.keypad_ascii'), expect='altcode.consumed-once'),
         Va('empty-window-folded-onto-full', 'break', KB,
            in_fn('KeyboardBuffer.ring_set_boundaries', lambda fn: mu.insert_before(fn, mu.stmt_has('start % self._ring_length != newstart', ast.While), 'start = start % self._ring_length')), expect='ring.'),
         Va('position-not-brought-into-ring', 'break', KB,
